@@ -61,6 +61,19 @@ class ScaledAux(torch.nn.Module):
         return (x @ self.v) * self.scale
 
 
+class IdleHead(torch.nn.Module):
+    """a conditionally used head: contributes `x·v` only in the accumulation windows that are not in `idle_windows`
+    (the engine's forward_function leaves it out of the graph there, so it receives NO gradient in those windows)"""
+
+    def __init__(self, d, idle_windows):
+        super().__init__()
+        self.v = torch.nn.Parameter(torch.zeros(d, dtype=torch.float64))
+        self.idle_windows = set(idle_windows)
+
+    def forward(self, x):
+        return x @ self.v
+
+
 _ENGINE_E = None
 
 
@@ -87,6 +100,9 @@ def engine_e():
         def forward_function(self, data):
             out = self.model(data["x"])
             for m in self.models.values():          # any number of additional models
+                idle = getattr(m, "idle_windows", None)
+                if idle and self.model.training and (self.it_counter // self.cfg.training.gradient_steps) in idle:
+                    continue                        # a head this window's batches do not touch
                 out = out + m(data["x"])
             return out.reshape(-1, 1, 1), None
 
@@ -133,7 +149,9 @@ def run_eprocess(expdir, c, *, total, resume=True, kill=None, kill_where="pre", 
     """One process of the REAL `Engine.train`.  `c`: the toy configuration of props/c16.py (`ck` = checkpoint_steps).
     `stale`: batch index whose gradient already sits on the parameters when `train()` is entered."""
     model = toy._ToyModel(c["w0"])
-    if c.get("aux_scales"):
+    if c.get("idle_windows") is not None:
+        auxes = [IdleHead(c["d"], c["idle_windows"])]
+    elif c.get("aux_scales"):
         auxes = [ScaledAux(c["d"], sc) for sc in c["aux_scales"]]
     else:
         auxes = [toy._ToyAux(c["d"])] if c.get("aux") else []
@@ -141,7 +159,7 @@ def run_eprocess(expdir, c, *, total, resume=True, kill=None, kill_where="pre", 
     groups = [{"params": model.parameters()}] + [{"params": a.parameters()} for a in auxes]
     opt = c.get("opt", ("sgd", Fr(0)))
     if opt[0] == "sgd":
-        o = torch.optim.SGD(groups, lr=float(c["base_lr"]), momentum=float(opt[1]))
+        o = torch.optim.SGD(groups, lr=float(c["base_lr"]), momentum=float(opt[1]), weight_decay=float(c.get("wd", 0)))
     else:
         o = torch.optim.Adam(groups, lr=float(c["base_lr"]))
     s = toy.make_scheduler(o, c["sched"])
@@ -463,3 +481,39 @@ def clip_aux_reference(c, scales, clip):
         out.append((w.detach().clone().tolist() + [x for v in vs for x in v.detach().clone().tolist()],
                     float(toy.lr_closed_form(c["sched"], it + 1))))
     return out, active, differs
+
+
+# --------------------------------------------------------------------------------------------------
+# a conditionally used head: windows without a gradient for it must leave it (and its optimiser state) alone
+def idle_head_reference(c):
+    """float64 reference: the optimiser (Adam / SGD+momentum / SGD+weight decay) applied to the window's mean gradient, with
+    `None` for the head in the windows that do not touch it.  None when a residual sits next to the kink of |·|."""
+    d, k, idle = c["d"], c["k"], set(c["idle_windows"])
+    w = torch.nn.Parameter(torch.tensor([float(v) for v in c["w0"]], dtype=torch.float64))
+    v = torch.nn.Parameter(torch.zeros(d, dtype=torch.float64))
+    if c["opt"][0] == "adam":
+        o = torch.optim.Adam([w, v], lr=float(c["base_lr"]))
+    else:
+        o = torch.optim.SGD([w, v], lr=float(c["base_lr"]), momentum=float(c["opt"][1]), weight_decay=float(c.get("wd", 0)))
+    out, window, moved_idle = [], [], False
+    for it in range(c["T"]):
+        active = (it // k) not in idle
+        rows = toy.batch_rows(c, it)
+        xb = torch.tensor([[float(a) for a in x] for x, _ in rows], dtype=torch.float64)
+        yb = torch.tensor([float(y) for _, y in rows], dtype=torch.float64)
+        res = xb @ w.detach() - yb
+        if active:
+            res = res + xb @ v.detach()
+        if bool((res.abs() < 1e-9).any()):
+            return None
+        window.append((torch.sign(res)[:, None] * xb).sum(0))
+        if (it + 1) % k == 0:
+            mean = torch.stack(window).sum(0) / k
+            window = []
+            for grp in o.param_groups:
+                grp["lr"] = float(toy.lr_closed_form(c["sched"], it))
+            w.grad = mean.clone()
+            v.grad = mean.clone() if active else None
+            o.step()
+        out.append((w.detach().clone().tolist() + v.detach().clone().tolist(), float(toy.lr_closed_form(c["sched"], it + 1))))
+    return out
